@@ -64,6 +64,7 @@ let rec parse_op (f : string list) : op =
   | ["q"; s; t; "gnum"] -> OQuery (src s, nat t, QGraveNum)
   | ["q"; s; t; "init"] -> OQuery (src s, nat t, QInit)
   | "wq" :: rest -> parse_op ("q" :: rest)
+  | "aq" :: rest -> parse_op ("q" :: rest)   (* the same query through the untyped string-keyed API *)
   | "insertw" :: rest -> parse_op ("insert" :: rest)
   | ["changes"; iid; t] -> OChanges (nn iid, nat t)
   | ["next"; iid; s; tk] -> ONext (nn iid, src s, take tk)
